@@ -349,6 +349,74 @@ def oracle_batch(c, r):
     return None
 
 
+# ------------------------------------------------------------------------- after a rejected re-fit
+
+
+def mk_percol(name):
+    """scorers whose fixed parameter has one entry per column (two columns): re-fitting them to data with another number
+    of columns is rejected by the parameter check inside `_fit`"""
+    from skchange.anomaly_scores import LocalAnomalyScore, Saving
+    from skchange.change_scores import ChangeScore
+    from skchange.costs import GaussianCovCost, GaussianVarCost, L2Cost
+
+    return {"l2": lambda: L2Cost(param=[1.5, -0.5]), "gvar": lambda: GaussianVarCost(param=([0.0, 1.0], [1.0, 2.0])),
+            "gcov": lambda: GaussianCovCost(param=([0.0, 1.0], [[2.0, 0.5], [0.5, 1.0]])),
+            "sav-l2": lambda: Saving(L2Cost(param=[0.5, 0.0])), "chg-l2": lambda: ChangeScore(L2Cost(param=[1.5, -0.5])),
+            "loc-gvar": lambda: LocalAnomalyScore(GaussianVarCost(param=([0.0, 1.0], [1.0, 2.0])))}[name]()
+
+
+def failed_refit_cases():
+    return [{"scorer": name, "n": 7, "dn": dn, "bad": bad} for name in ("l2", "gvar", "gcov", "sav-l2", "chg-l2", "loc-gvar")
+            for dn in (-3, 0, 4) for bad in ("columns", "list")]
+
+
+def impl_failed_refit(c):
+    """fit (accepted), fit again with input that is rejected — data with another number of columns (rejected by the parameter
+    check after the base class has taken the data) or a plain list (rejected by the container check) — then evaluate every
+    tuple of the box [-1, max(n, n')+1]^k"""
+    import itertools
+
+    n, n2 = c["n"], c["n"] + c["dn"]
+    X1 = data(n, 2, 5)
+    try:
+        sc = mk_percol(c["scorer"]).fit(X1)
+        ref = mk_percol(c["scorer"]).fit(X1)
+        k = sc.expected_cut_entries
+    except Exception as ex:
+        return {"outcome": "other:" + type(ex).__name__, "msg": str(ex)[:200]}
+    bad = data(n2, 1, 6) if c["bad"] == "columns" else data(n2, 2, 6).tolist()
+    try:
+        sc.fit(bad)
+        return {"outcome": "refit-accepted"}
+    except Exception as ex:
+        rej = type(ex).__name__
+    rows = []
+    for t in itertools.product(range(-1, max(n, n2) + 2), repeat=k):
+        try:
+            got, gv = "ok", sc.evaluate(np.array([t]))
+        except Exception as ex:  # (NotFittedError is a ValueError: keep the class name)
+            got, gv = ("other:NotFittedError" if type(ex).__name__ == "NotFittedError" else "err" if isinstance(ex, ValueError)
+                       else "other:" + type(ex).__name__), None
+        want, wv = classify(lambda: ref.evaluate(np.array([t])))
+        same = got == want and (got != "ok" or bool(np.allclose(gv, wv, rtol=1e-12, atol=1e-12)))
+        rows.append((list(t), got, same))
+    return {"outcome": "ok", "rejected_with": rej, "rows": rows}
+
+
+def oracle_failed_refit(c, r):
+    if r["outcome"] == "refit-accepted":
+        return None  # nothing to judge: the re-fit was accepted
+    if r["outcome"] != "ok":
+        return f"first fit raised {r['outcome']} {r.get('msg', '')}"
+    if all(got == "other:NotFittedError" for _, got, _ in r["rows"]):
+        return None  # the scorer counts as not fitted after the rejected fit
+    for t, got, same in r["rows"]:
+        if not same:
+            return (f"{c['scorer']}: after a re-fit that was rejected ({r['rejected_with']}; {c['bad']}, {c['n'] + c['dn']} rows) evaluate({t}) gives {got}: "
+                    f"neither NotFittedError nor what the scorer fitted to the accepted data ({c['n']} rows) gives")
+    return None
+
+
 def run(chk: core.Check):
     tier = chk.tier
     chk.lean()
@@ -392,6 +460,11 @@ def run(chk: core.Check):
                    describe=lambda c: c)
     chk.run_stream("batches", batch_cases(), impl_batch, oracle=oracle_batch, site="evaluate/batch", per_case_timeout=120,
                    describe=lambda c: c)
+    chk.rules.append("failed-refit: six scorers with per-column fixed parameters are fitted, then re-fitted with input that is rejected (another "
+                     "number of columns, shorter / equal / longer; or a plain list); afterwards every tuple of the box must either raise "
+                     "NotFittedError or be treated exactly as by the scorer fitted to the accepted data")
+    chk.run_stream("failed-refit", failed_refit_cases(), impl_failed_refit, oracle=oracle_failed_refit, site="evaluate/after-rejected-fit",
+                   per_case_timeout=120, describe=lambda c: c)
     return chk.finish()
 
 
@@ -410,6 +483,9 @@ def replay(path):
     elif v["stream"] == "batches":
         r = impl_batch(case)
         print("oracle:", oracle_batch(case, r))
+    elif v["stream"] == "failed-refit":
+        r = impl_failed_refit(case)
+        print("oracle:", oracle_failed_refit(case, r))
     else:
         r = impl_box({k: x for k, x in case.items() if k != "cut"})
         print("oracle:", oracle_box(case, r))
